@@ -69,6 +69,7 @@ type fnEnc struct {
 	decAtHead map[*ssa.BasicBlock][]string
 	defs      map[string]string
 	callOrd   map[string]int
+	localAllocs []string // refs of non-escaping allocations
 }
 
 type retInfo struct {
@@ -405,7 +406,14 @@ func (e *fnEnc) havocSummary(s *Summary, all bool) {
 			if strings.HasPrefix(k, "ITER!") || k == "CLOCK" {
 				continue
 			}
+			old := e.cur[k]
 			e.havoc(k)
+			// cells of non-escaping local allocations cannot be reached by any callee
+			if hk, ok := e.vc.keys[k]; ok && old != "" && strings.HasPrefix(hk.Sort, "(Array Int ") && (strings.HasPrefix(k, "F!") || strings.HasPrefix(k, "D!")) {
+				for _, a := range e.localAllocs {
+					e.vc.def(fmt.Sprintf("(= (select %s %s) (select %s %s))", e.cur[k], a, old, a))
+				}
+			}
 		}
 		return
 	}
@@ -418,7 +426,13 @@ func (e *fnEnc) havocSummary(s *Summary, all bool) {
 	}
 	sort.Strings(ks)
 	for _, k := range ks {
+		old := e.cur[k]
 		e.havoc(k)
+		if hk, ok := e.vc.keys[k]; ok && old != "" && strings.HasPrefix(hk.Sort, "(Array Int ") && (strings.HasPrefix(k, "F!") || strings.HasPrefix(k, "D!")) {
+			for _, a := range e.localAllocs {
+				e.vc.def(fmt.Sprintf("(= (select %s %s) (select %s %s))", e.cur[k], a, old, a))
+			}
+		}
 	}
 }
 
